@@ -5,7 +5,8 @@ an input of `LessThan` is taken to be checked by.  Statements are abstracted to 
 * `inst key t`   — `var[access] = T(args)`: the component (name and access) and what it is instantiated as;
 * `input key port indexed whole elems block` — `var[access].port <== value` or `var[access].port[i] <== value` (`indexed`) in basic
   block `block`: `whole` is the assigned expression — its canonical text (the pass compares expressions, not locations) and whether
-  it is *fixed*, i.e. reads no local variable —, `elems` its elements if it is an inline array `[v₀, v₁, …]`.
+  it is *fixed*, i.e. reads no local variable other than parameters of the template as passed (since fd9ca6e; a parameter that is
+  assigned is another SSA variable) —, `elems` its elements if it is an inline array `[v₀, v₁, …]`.
 
 Since the `fix:` ee9259e a component is looked up by `maybe_equal` (as in `SignalAssign.mayAlias`, but for accesses of equal
 length), and since its review all instantiations are kept: the inputs are examined when *some* instantiation that may be the
@@ -29,7 +30,8 @@ structure Key where
   acc : List Acc
   deriving Repr, DecidableEq
 
-/-- an expression: its canonical text, and whether it reads no local variable (then it has one value in the whole template) -/
+/-- an expression: its canonical text, and whether it reads no local variable other than a parameter as passed (then it has one value in
+    the whole template) -/
 abbrev Val := String × Bool
 
 inductive Stmt
